@@ -417,7 +417,8 @@ func (r *rewriter) rewriteSelector(c *astutil.Cursor, n *ast.SelectorExpr) {
 			n.X = ast.NewIdent("vrt")
 			r.note(n.Pos(), "sync."+n.Sel.Name)
 		} else {
-			must(fmt.Errorf("%s: unsupported sync.%s", r.site(n.Pos()), n.Sel.Name))
+			// sync.Map, sync.Pool, sync.OnceFunc ... never block: the real ones are fine under a cooperative scheduler
+			r.note(n.Pos(), "sync."+n.Sel.Name+" left as is")
 		}
 	case r.isPkg(n.X, "time"):
 		if timeFuncs[n.Sel.Name] {
